@@ -9,7 +9,7 @@ package bech32
 // The specification functions are transcribed from BIP-173: CHARSET, the generator constants inside
 // pmstep, hrp_expand (pmhi / pmlo), verify_checksum (pmdata == 1) and create_checksum (pmfin).
 
-//@ props C04 C05
+//@ props C04 C05 C16
 
 //@ spec CHARSET() string = "qpzry9x8gf2tvdw0s3jn54khce6mua7l"
 //@ fun chardec(c byte) uint8 = ite(c == 'q', 0, ite(c == 'p', 1, ite(c == 'z', 2, ite(c == 'r', 3, ite(c == 'y', 4, ite(c == '9', 5, ite(c == 'x', 6, ite(c == '8', 7, ite(c == 'g', 8, ite(c == 'f', 9, ite(c == '2', 10, ite(c == 't', 11, ite(c == 'v', 12, ite(c == 'd', 13, ite(c == 'w', 14, ite(c == '0', 15, ite(c == 's', 16, ite(c == '3', 17, ite(c == 'j', 18, ite(c == 'n', 19, ite(c == '5', 20, ite(c == '4', 21, ite(c == 'k', 22, ite(c == 'h', 23, ite(c == 'c', 24, ite(c == 'e', 25, ite(c == '6', 26, ite(c == 'm', 27, ite(c == 'u', 28, ite(c == 'a', 29, ite(c == '7', 30, ite(c == 'l', 31, 255))))))))))))))))))))))))))))))))
@@ -217,3 +217,33 @@ package bech32
 //@   ensures implies(isnil(err) && hasupper(hrp), forall(i, 0, 6, r[len(hrp)+1+len(d5)+i] == toupper(CHARSET()[byte((pmfin(lhrp, d5)>>(5*(5-i)))&31)])))
 //@   panics  never
 //@   loop 1 invariant 0 <= _i1 && _i1 <= len(hrp) && forall(k, 0, _i1, 33 <= hrp[k] && hrp[k] <= 126)
+
+// ---- C16: the checksum is GF(2)-linear, so replacing symbols changes polymod by the syndrome of the
+// error pattern alone; Decode accepts only polymod == 1 (contract above). What remains is a fact
+// about the generator constants (no pattern of weight 1..4 inside 89 symbols has syndrome 0),
+// established by exhaustive enumeration through the real bech32Polymod (see /verif/DESIGN.md, C16).
+
+//@ rec lin(e []byte, n int) uint32 = ite(n <= 0, uint32(0), pmstep(lin(e, n-1), e[n-1]))
+
+//@ lemma pm_linear(a uint32, b uint32, v byte, w byte)
+//@   props C16
+//@   repr byte uint32
+//@   ensures pmstep(a^b, v^w) == pmstep(a, v) ^ pmstep(b, w)
+//@   ensures pmstep(0, 0) == 0
+
+//@ lemma pm_lift(x []byte, y []byte, e []byte, n int)
+//@   props C16
+//@   repr byte uint32
+//@   requires 0 <= n
+//@   requires forall(k, 0, n, y[k] == x[k] ^ e[k])
+//@   use pm_linear(pmod(x, n-1), lin(e, n-1), x[n-1], e[n-1])
+//@   ensures pmod(y, n) == pmod(x, n) ^ lin(e, n)
+//@   induct n
+
+//@ lemma hrp_same_kind(c byte, d byte)
+//@   props C16
+//@   repr byte uint32
+//@   ensures implies(islower(c) && islower(d), tolower(c)>>5 == tolower(d)>>5)
+//@   ensures implies(isupper(c) && isupper(d), tolower(c)>>5 == tolower(d)>>5)
+//@   ensures implies('0' <= c && c <= '9' && '0' <= d && d <= '9', tolower(c)>>5 == tolower(d)>>5)
+//@   ensures implies(chardec(c) != 255 && chardec(d) != 255 && c != d, chardec(c) ^ chardec(d) != 0 && chardec(c) ^ chardec(d) < 32)
